@@ -787,6 +787,8 @@ type c11Run struct {
 	refFP    map[string]int // fingerprint -> number of identity-bearing reference objects carrying it
 	nCases   int
 	curIDs   *c11Ids // identity table of the case being run (option values are numbered in it)
+	// concBudget: how many more random shared-input scenarios are also built concurrently (child process)
+	concBudget int
 }
 
 func (r *c11Run) universeFor(c *c11Case) []string {
@@ -1963,7 +1965,13 @@ func c11_runC11(e *Env) {
 		"over pools of 1-4 names; the Lean model folds the sequence itself and Risor.C11.allowedTop judges the real final binding of every top-level name. " +
 		"LATER configurations: 0-2 further Configs are built after the edited one and before its graph is walked and its scripts run. " +
 		"REUSED VM: 2-4 configurations (directed pairs without new names, random sequences over one pool), 10-28 access scripts evaluated one after the other " +
-		"on one VM under alternating configurations (Config object and risor.Eval+WithVM); non-trivial when some evaluation succeeds"
+		"on one VM under alternating configurations (Config object and risor.Eval+WithVM); non-trivial when some evaluation succeeds. " +
+		"SHARED HOST INPUTS: 1-3 host maps (nil, empty, 1-4 entries over a pool of host builtins/modules/lists/maps, the same object under several names and in several maps) " +
+		"handed to 2-4 configurations (10 directed templates: permissive then restrictive and the reverse, both option orders, the same []Option slice again, risor.Eval " +
+		"and risor.NewConfig; random option sequences over WithGlobals(M_i)/WithGlobal/WithoutGlobal/WithGlobalOverride/WithoutDefaultGlobals) built one after the other " +
+		"and, in a child process, concurrently; after every build every host map / host module / host container is compared by identity with what the host wrote, every Config's " +
+		"globals are compared with Risor.C11.runBuilds (Impl) and Risor.C11.ownGlobals (Spec) right after its build and again after all builds, and scripts run under every " +
+		"configuration's options; non-trivial when a non-nil host map is named by at least two of the builds"
 	r := &c11Run{e: e}
 	// the attribute-name universe regenerated from /repo on this run, through the oracle
 	u := e.O.Ask("C11", "universe")
@@ -2172,6 +2180,10 @@ func c11_runC11(e *Env) {
 
 	// 6. evaluations on ONE reused VM under differing configurations
 	r.runReuses(rng.Fork(), topNames, memberNames)
+
+	// 7. HOST-OWNED INPUTS shared between configurations (c11shared.go): the same Go map value (and
+	// the same objects inside it) handed to several Configs / evaluations, sequentially and concurrently
+	r.runShareds(rng.Fork())
 
 	// 4. WithoutDefaultGlobals with nothing / with explicit defaults and no edits
 	r.runCase(&c11Case{style: "W", kind: "empty"}, rng.Fork())
